@@ -181,8 +181,35 @@ func (cls *CachedLocations) Open(ctx *Context, sys *System, name string, check b
 		return cl.Get(ctx, sys, name, check)
 	}
 
+	cl := cls.locs[name]
 	cls.Unlock()
+	if check && cl != nil {
+		// A cache hit.  The entry might have been loaded by a
+		// request that did not check whether the location exists.
+		err = cl.checkCreated(ctx, loc, name)
+		if err != nil {
+			return nil, err
+		}
+	}
 	return loc, err
+}
+
+// checkCreated verifies (once) that the cached location has been created.
+func (cl *CachedLocation) checkCreated(ctx *Context, loc *Location, name string) error {
+	cl.Lock()
+	defer cl.Unlock()
+	if cl.checked {
+		return nil
+	}
+	created, err := locationCreated(ctx, loc)
+	if err != nil {
+		return err
+	}
+	if !created {
+		return NewNotFoundError("%s", name)
+	}
+	cl.checked = true
+	return nil
 }
 
 // Release checks whether the location has expired and, if so, closes
@@ -218,6 +245,10 @@ type CachedLocation struct {
 	// users is the number of requests that have opened this entry
 	// and not released it yet.
 	users int
+	// checked says that the location is known to have been created
+	// (see OpenLocation).  An entry loaded for a request that doesn't
+	// ask (CreateLocation, a child looking for its parents) isn't.
+	checked bool
 	*Location
 }
 
@@ -262,6 +293,7 @@ func (cl *CachedLocation) Get(ctx *Context, sys *System, name string, checkExist
 			Log(WARN, ctx, "CachedLocation.Get", "name", name, "when", "OpenLocation", "error", err)
 		} else {
 			cl.Location = loc
+			cl.checked = checkExists
 
 			// See if we have a 'cacheTTL' property.  If so, try to use it.
 
